@@ -6,7 +6,7 @@ CHECKS = {
              "oracle: Decode(Encode(img)) equals the source read through image.Image as NRGBA. Non-trivial: picture has >=2 distinct pixels; "
              "distinct = (colour-count class, alpha class, size class, Go type, Method, Quality band, Exact) signatures.",
         assumptions=["rapid v1.3.0 generation and shrinking", "premultiplied *image.RGBA sources with 0<a<255 are compared within +-1 on RGB (un-multiplication is not uniquely defined)"],
-        tests=[dict(name="TestC01", quick=16000, thorough=80000)],
+        tests=[dict(name="TestC01", quick=40000, thorough=80000)],
     ),
     "C02": dict(
         level="exploration",
@@ -26,7 +26,7 @@ CHECKS = {
              "oracle: AlphaQuality 100 => decoded alpha == source alpha exactly; opaque source => no ALPH/flag and opaque decode; AlphaQuality<100 => #levels <= documented mapping and min/max preserved; libwebp's alpha equals the package's. "
              "Non-trivial: >=2 source alpha levels; distinct = (alpha class, level-count bucket, ALPH method x filter chosen, Method, quantised or not).",
         assumptions=["documented level mapping: 2+q/5 for q<=70, 16+(q-70)*8 above (internal/lossy/alpha.go comment)"],
-        tests=[dict(name="TestC07", quick=16000, thorough=90000)],
+        tests=[dict(name="TestC07", quick=32000, thorough=90000)],
     ),
     "C15": dict(
         level="exploration",
@@ -88,7 +88,7 @@ CHECKS = {
              "Oracle: Decode(prefix) is an error or an image identical in type, bounds and samples to the full decode; DecodeConfig/GetFeatures(prefix) is an error or equal in all fields to the complete file's. "
              "Non-trivial: every file (all its cut points inside chunk payloads are visited); distinct = (source, chunk layout + partition count, decoded type). prefixes_checked counts the enumerated truncation points.",
         assumptions=["files the package's Decode rejects in full are outside the property's domain and counted inconclusive"],
-        tests=[dict(name="TestC17", quick=1920, thorough=12000)],
+        tests=[dict(name="TestC17", quick=3200, thorough=12000)],
     ),
     "C09": dict(
         level="exploration",
@@ -98,7 +98,7 @@ CHECKS = {
              "Oracle: /verif's key-frame-free reference compositor (transparent start, dispose previous rectangle clipped, overwrite or libwebp-documented integer blend; exact value also accepted where src alpha=255 or dst alpha=0); Reset replays identically; returned snapshots never change (SHA-256); Canvas() equals the last snapshot. "
              "Non-trivial: list contains a disposal followed by a blended frame, or a frame the decoder's key-frame shortcut accepts at index>0; distinct = per-frame (full, blend, dispose, hasalpha) history; each swept alpha pair counts once.",
         assumptions=["frame offsets non-negative; HasAlpha never understates (what the demuxer guarantees)", "blend arithmetic = libwebp's BlendPixelNonPremult, which the package documents"],
-        tests=[dict(name="TestC09", quick=16000, thorough=160000), dict(name="TestC09Exhaustive", quick=16, thorough=16, no_replay=True), dict(name="TestC09Blend", quick=16, thorough=16, no_replay=True)],
+        tests=[dict(name="TestC09", quick=40000, thorough=160000), dict(name="TestC09Exhaustive", quick=16, thorough=16, no_replay=True), dict(name="TestC09Blend", quick=16, thorough=16, no_replay=True)],
     ),
     "C08": dict(
         level="exploration",
@@ -106,7 +106,7 @@ CHECKS = {
              "Oracle: expected timeline = input canvases (smaller pictures at (0,0) on transparent) with consecutive identical ones merged; actual = DecodeBytes+DecodeFrames+AnimDecoder snapshots merged the same way; pictures equal in order (alpha-0 pixels equal whatever their colour), canvas size equal, and with >=2 distinct pictures per-picture display time, total duration and (clamped) loop count equal; every file passes riffwalk. "
              "Non-trivial: >=2 distinct pictures and a sub-frame, merged duplicate or forced key frame; distinct = (alpha class, edit kinds, Kmin/Kmax, blend/dispose modes in the file, sub-frame/merge/filler seen).",
         assumptions=["frame durations are generated in 0..2^24-1 ms (a single duration above the container's 24-bit field cannot be stored)"],
-        tests=[dict(name="TestC08", quick=16000, thorough=64000)],
+        tests=[dict(name="TestC08", quick=32000, thorough=64000)],
     ),
     "C18": dict(
         level="exploration",
@@ -114,7 +114,7 @@ CHECKS = {
              "Oracle: input and playback are compared as step functions of presentation time: every played-back canvas that is on screen during an input picture's interval has exactly that picture's alpha channel; total duration and canvas size equal (a single picture stored as a still must carry that alpha). "
              "Non-trivial: a non-opaque pixel exists and the file contains a lossy (VP8) frame; distinct = (mode pair, alpha class, codecs emitted, sub-frames, length).",
         assumptions=["lossy pictures are not exact, so frames are aligned by time, not by picture equality"],
-        tests=[dict(name="TestC18", quick=10000, thorough=40000)],
+        tests=[dict(name="TestC18", quick=20000, thorough=40000)],
     ),
     "C14": dict(
         level="exploration",
@@ -122,7 +122,7 @@ CHECKS = {
              "Oracle: a model of the muxer state predicts acceptance and structure. Accepted: riffwalk validates the file; mux.Demuxer AND container.Parser return the same bitstreams and ALPH payloads byte for byte, offsets rounded down to even, clamped durations, blend/dispose, loop count, background colour, canvas, metadata; GetFeatures agrees; stills decode to the same pixels as their bitstream alone. Rejected: an error, and nothing that parses as a complete file was written; consistent states must not be rejected, frames outside the canvas must be. "
              "Non-trivial: alpha-prefixed frame, >=2 frames or metadata; distinct = (animated, frame count, setters used, payload parities, fits).",
         assumptions=["offsets non-negative; canvas area kept below the package's 2^30-pixel reader cap; for stills with an explicit canvas different from the picture the strict still-canvas rule of riffwalk is not applied"],
-        tests=[dict(name="TestC14", quick=24000, thorough=600000)],
+        tests=[dict(name="TestC14", quick=64000, thorough=600000)],
     ),
     "C16": dict(
         level="exploration",
@@ -131,7 +131,7 @@ CHECKS = {
              "Non-trivial: every file; distinct = (source, format, animated, chunk layout with empty/odd markers). "
              "Thorough adds a native coverage-guided campaign (FuzzC16): bytes that the strict container validator accepts as a well-formed file go through the same cross-view comparison.",
         assumptions=["the harness binary links no other decoder registering the webp format (x/image/webp is vendored without its init)"],
-        tests=[dict(name="TestC16", quick=20000, thorough=400000)],
+        tests=[dict(name="TestC16", quick=48000, thorough=400000)],
         fuzz=[dict(name="FuzzC16", seconds=120)],
     ),
     "C12": dict(
